@@ -333,7 +333,7 @@ package authenticode
 //@   ghost cmsOK bool = false
 //@   ghost cmp bool = false
 //@   on call (*pkcs7.SignedData).Verify(sd, ext, skip) ret (s, e): cmsOK = (e == nil && !skip)
-//@   on call crypto/hmac.Equal(a, b) ret (ok): cmp = ok
+//@   on call crypto/hmac.Equal(a, b) ret (ok): cmp = ok && sameslice(a, digest.Imprint) && sameslice(b, indirect.MessageDigest.Digest)
 //@   before call DigestPowershell(src, st, h): assert @script_digested_again_with_the_signed_algorithm src == iface(r) && st == style && h == hash
 //@   ensures @cms_verified_and_script_digest_compared ret1 == nil ==> cmsOK && (!skipDigests ==> cmp)
 //@
